@@ -274,13 +274,17 @@ def r_accum(prog, tier):
 
 def _in_file_line_loop(cfg, n):
     """Is the statement inside `for line in <f>` with <f> bound by an enclosing `with ... open(...) as <f>`?"""
+    from ..events import strip_copy
     for l in n.loops:
         lp = cfg.nodes[l]
-        if lp.kind == 'iter' and isinstance(lp.ast.iter, ast.Name):
+        src_ = strip_copy(lp.ast.iter) if lp.kind == 'iter' else None
+        if isinstance(src_, ast.Call) and isinstance(src_.func, ast.Attribute) and src_.func.attr == 'readlines' and not src_.args:
+            src_ = src_.func.value
+        if lp.kind == 'iter' and isinstance(src_, ast.Name):
             for w in cfg.nodes:
                 if w.kind == 'with':
                     for it in w.ast.items:
-                        if it.optional_vars is not None and unparse(it.optional_vars) == lp.ast.iter.id \
+                        if it.optional_vars is not None and unparse(it.optional_vars) == src_.id \
                                 and 'open' in unparse(it.context_expr):
                             return True
     return False
